@@ -43,6 +43,9 @@ def main(argv):
         if ok is None:
             print("HARNESS-ERROR\n" + info["harness_error"])
             return 2
+        if ok and not info["digest_match"]:
+            print("replay: same violation but a DIFFERENT event log than recorded (digest mismatch) - not an exact reproduction")
+            return 3
         return 1 if ok else 0
     if a.selftest:
         from nrfsim import selftest
